@@ -356,6 +356,7 @@ func c05(c *Ctx) {
 				return ok && calleeName(&cl.Call) == storeT+"MandatoryMVCCUpToTxID"
 			})
 			c.check(dep, r, fnName(f)+":snapshot-includes-mandatory-mvcc-tx", c.pos(in.Pos()), "snapshot floor takes MandatoryMVCCUpToTxID() into account", "transaction snapshots no longer include the mandatory-MVCC transaction")
+			c05FloorIsMax(c, r, f, in, arg)
 		}
 	}
 	if f := c.mustFn(r, storeT+"precommit"); f != nil {
@@ -793,4 +794,62 @@ func c05EverySnapshotValidated(c *Ctx, r string) {
 	if n != 1 {
 		c.undecided(r, fnName(f)+":loop", fmt.Sprintf("%d loops over tx.snapshots recognised, expected 1", n))
 	}
+}
+
+// c05FloorIsMax: the snapshot floor handed to the index is max(requested, mandatory): the only way the requested value
+// is passed on is the false edge of the comparison `mandatory > requested`. Any other way around the mandatory floor
+// (a transaction mode, an option) lets a transaction read data older than a catalog change it already sees.
+func c05FloorIsMax(c *Ctx, r string, f *ssa.Function, call ssa.Instruction, arg ssa.Value) {
+	construct := fnName(f) + ":floor-is-max-of-requested-and-mandatory"
+	ph, ok := arg.(*ssa.Phi)
+	if !ok {
+		c.undecided(r, construct, "the snapshot floor is not a choice between two values ("+desc(arg)+")")
+		return
+	}
+	isMand := func(v ssa.Value) bool {
+		cl, ok := v.(*ssa.Call)
+		return ok && calleeName(&cl.Call) == storeT+"MandatoryMVCCUpToTxID"
+	}
+	var bad []string
+	nm := 0
+	for i, e := range ph.Edges {
+		if isMand(e) {
+			nm++
+			continue
+		}
+		p := ph.Block().Preds[i]
+		okEdge := false
+		if len(p.Instrs) > 0 {
+			if ifi, isIf := p.Instrs[len(p.Instrs)-1].(*ssa.If); isIf {
+				if bo, isBo := ifi.Cond.(*ssa.BinOp); isBo {
+					var mandGreaterOnTrue, recognised bool
+					switch {
+					case isMand(bo.X) && bo.Y == e && (bo.Op == token.GTR || bo.Op == token.GEQ):
+						mandGreaterOnTrue, recognised = true, true
+					case isMand(bo.Y) && bo.X == e && (bo.Op == token.LSS || bo.Op == token.LEQ):
+						mandGreaterOnTrue, recognised = true, true
+					case isMand(bo.X) && bo.Y == e && (bo.Op == token.LSS || bo.Op == token.LEQ):
+						mandGreaterOnTrue, recognised = false, true
+					case isMand(bo.Y) && bo.X == e && (bo.Op == token.GTR || bo.Op == token.GEQ):
+						mandGreaterOnTrue, recognised = false, true
+					}
+					if recognised {
+						keep := 1 // the successor taken when mandatory is NOT greater
+						if !mandGreaterOnTrue {
+							keep = 0
+						}
+						okEdge = p.Succs[keep] == ph.Block()
+					}
+				}
+			}
+		}
+		if !okEdge {
+			bad = append(bad, "block "+p.String()+" ending with "+p.Instrs[len(p.Instrs)-1].String())
+		}
+	}
+	if nm == 0 {
+		bad = append(bad, "the mandatory floor is never selected")
+	}
+	c.check(len(bad) == 0, r, construct, c.pos(call.Pos()), "the requested floor is kept only on the edge where the mandatory one is not greater",
+		"the requested snapshot floor is passed on without having been compared with the mandatory-MVCC floor (from "+strings.Join(bad, ", ")+"): such a transaction reads data older than the last catalog change")
 }
